@@ -1,4 +1,5 @@
 import AfqmcVerif.Lemmas.SingleDet
+import AfqmcVerif.Lemmas.AutoBra
 import Mathlib.LinearAlgebra.Matrix.Block
 import Mathlib.Tactic.Ring
 import Mathlib.Tactic.FieldSimp
@@ -76,6 +77,11 @@ energy, as derivatives of the overlap of `(1 + xO)W` / `exp(xO)W`) is unchanged.
 def anyBra {ι : Type} [Fintype ι] (c : ι → K) (ea : ι → Fin ka → Fin m) (eb : ι → Fin kb → Fin m)
     (Wa : Matrix (Fin m) (Fin ka) K) (Wb : Matrix (Fin m) (Fin kb) K) : K :=
   ∑ i, c i * ((Wa.submatrix (ea i) id).det * (Wb.submatrix (eb i) id).det)
+
+/-- the same functional as `AutoBra.bra`, along which C02 / C03 differentiate the AD kinds -/
+theorem anyBra_eq_bra {ι : Type} [Fintype ι] (c : ι → K) (ea : ι → Fin ka → Fin m) (eb : ι → Fin kb → Fin m)
+    (Wa : Matrix (Fin m) (Fin ka) K) (Wb : Matrix (Fin m) (Fin kb) K) :
+    anyBra c ea eb Wa Wb = AfqmcVerif.AutoBra.bra c ea eb Wa Wb := rfl
 
 theorem minor_mul_right {k' : ℕ} (Q : Matrix (Fin m) (Fin k') K) (R : Matrix (Fin k') (Fin k') K) (e : Fin k' → Fin m) :
     ((Q * R).submatrix e id).det = (Q.submatrix e id).det * R.det := by
